@@ -1524,7 +1524,27 @@ class ProcessStartCommandModel(ProcessStartCommand):
 
 
 class ApplicationStartJobsModel(ApplicationStartJobs):
-    """ Model of a ApplicationStartJobs without any extern interaction. """
+    """ Model of a ApplicationStartJobs without any extern interaction.
+
+    Attributes are:
+        - started_load_map: the load of the mock processes that have been started in the model.
+    """
+
+    def __init__(self, *args, **kwargs) -> None:
+        """ Initialization of the attributes. """
+        super().__init__(*args, **kwargs)
+        self.started_load_map: LoadMap = {}
+
+    def get_load_requests(self) -> LoadMap:
+        """ The mock processes are not known to the SupvisorsInstanceStatus, so their load has to be considered
+        here once they are started.
+
+        :return: the additional loading per Supvisors instance
+        """
+        load_request_map = super().get_load_requests()
+        for identifier, load in self.started_load_map.items():
+            load_request_map[identifier] = load_request_map.get(identifier, 0) + load
+        return load_request_map
 
     def fail_command(self, process: ProcessStatus, identifier: str, event_time: float, reason: str) -> None:
         """ Replace the force_process_state command by a direct update on ProcessStatus. """
@@ -1591,6 +1611,12 @@ class StarterModel(Starter):
         """
         while self.event_list:
             process, identifier, state = self.event_list.pop(0)
+            if state == ProcessStates.STARTING:
+                # from now on, the process load is not counted in the pending requests anymore
+                application_job = self.current_jobs.get(process.application_name)
+                if application_job:
+                    started_load_map = application_job.started_load_map
+                    started_load_map[identifier] = started_load_map.get(identifier, 0) + process.rules.expected_load
             process._state = state
             process.info_map[identifier]['state'] = state
             self.on_event(process, identifier)
